@@ -1,17 +1,35 @@
-"""C07 — built-in pools are linearizable queues (sequential / data-structure half).
-Correspondence: T0 generated table Gen/PoolEnds.lean (theorem pool_kind_ends), T2 differential
+"""C07 — built-in pools are linearizable queues.
+Sequential / data-structure half.  Correspondence: T0 generated table Gen/PoolEnds.lean (theorem pool_kind_ends),
+T2 differential
   * white-box thread_queue_* (harness/wb_tq.c under ASan/UBSan) vs Lean Model.TQ, with ring dumps;
   * public ABT_pool_* API on detached pools of 3 kinds x 5 access modes (harness/wb_poolapi.c) vs
-    the same model driven by the generated table (`driver pool <kind>`)."""
+    the same model driven by the generated table (`driver pool <kind>`).
+Concurrent half (Model.PoolConc: lock discipline, lock-free emptiness pre-checks, linearisation points).
+Correspondence: T0 the same table with a per-site "inside the pool lock" bit (theorem table_lock_discipline), T1 token
+skeletons of every function of fifo.c / fifo_wait.c / randws.c / thread_queue.h / abtd_spinlock.h the model abstracts
+(incl. the access -> callback dispatch), T3 controlled-scheduler traces of harness/sc_pool.c (producers / consumers as
+external threads and ULTs on their own streams, 3 kinds x 5 access modes) projected by vlib/t3_pool.py and validated by
+`driver poolconc`; native monitors in the scenario and an independent history oracle decide whether a rejected trace is
+a real failure."""
 import collections, json, os, re
 from vlib import common as C
 from vlib import diff as D
+from vlib import t1, t3_pool, vs
 
 ASSUMPTIONS = [
     "work units are modelled as natural-number identifiers (0 = NULL); only the fields p_prev, p_next, is_in_pool of ABTI_thread are modelled",
     "contract of the queue code (not checked by it): a pushed unit is valid and in no queue; a removed unit whose is_in_pool flag is 1 is in the queue it is removed from (the flag is per unit, not per queue)",
-    "this check is sequential: lock discipline, pop_wait blocking and linearisation points are the concurrent model's part (Model.PoolConc)",
+    "T2 is sequential; lock discipline, lock-free pre-checks and linearisation points are Model.PoolConc's part (T1 + T3)",
     "pop_wait / pop_timedwait are exercised with a sub-millisecond timeout; sequentially the wait only delays an empty answer",
+    "Model.PoolConc: sequentially consistent execution of the atomic primitives (acquire/release annotations not modelled); "
+    "plain statements between two hook points (atomic primitive / ABTI_VERIF_EVENT / wrapped OS call) are one step, in the model and in the controlled scheduler",
+    "Model.PoolConc abstracts time: a polling pop_wait may give up after any failed attempt, a condition wait may end at any moment "
+    "(deadline arithmetic and wake-up guarantees are C19's Model.PopWait); pthread mutex / condition variable are virtual primitives",
+    "ABT_POOL_ACCESS_PRIV (the lock-free callbacks): the access contract 'calls do not overlap' is a precondition of the model's call event; "
+    "SPSC/MPSC/SPMC are exercised with exactly the number of pushing / popping threads they permit, MPMC with up to 4 + 4",
+    "remove is called on units that are in this pool or in no pool (the is_in_pool flag is per unit, not per queue: same contract as sequentially)",
+    "T3 projection (vlib/t3_pool.py) is trusted: which logged atomic / hook event is which model event; a failing guard of "
+    "thread_queue_remove under the lock has no hook point and is inferred from the lock release",
 ]
 
 NQ, NU = 4, 16
@@ -717,6 +735,224 @@ def t2_pool(res, tier, broken):
     return nl
 
 
+# --------------------------------------------------------------------------
+# concurrent half: T1 skeletons + T3 (harness/sc_pool.c under the controlled scheduler vs Model.PoolConc)
+# --------------------------------------------------------------------------
+_POOL_FNS = {
+    "pool/fifo.c": ["ABTI_pool_get_fifo_def", "pool_init", "pool_is_empty", "pool_get_size", "pool_push_shared", "pool_push_private",
+                    "pool_push_many_shared", "pool_push_many_private", "pool_pop_wait", "pool_pop_timedwait", "pool_pop_shared",
+                    "pool_pop_private", "pool_pop_many_shared", "pool_pop_many_private", "pool_remove_shared", "pool_remove_private",
+                    "pool_unit_is_in_pool"],
+    "pool/randws.c": ["ABTI_pool_get_randws_def", "pool_init", "pool_is_empty", "pool_get_size", "pool_push_shared", "pool_push_private",
+                      "pool_push_many_shared", "pool_push_many_private", "pool_pop_wait", "pool_pop_timedwait", "pool_pop_shared",
+                      "pool_pop_private", "pool_pop_many_shared", "pool_pop_many_private", "pool_remove_shared", "pool_remove_private",
+                      "pool_unit_is_in_pool"],
+    "pool/fifo_wait.c": ["ABTI_pool_get_fifo_wait_def", "pool_init", "pool_is_empty", "pool_get_size", "pool_push", "pool_push_many",
+                         "pool_pop_wait", "pool_pop_timedwait", "pool_pop", "pool_pop_many", "pool_remove", "pool_unit_is_in_pool",
+                         "convert_double_sec_to_timespec"],
+}
+T1_FUNCS = [(f, fn) for f, fns in _POOL_FNS.items() for fn in fns] + [("pool/fifo.c", fn) for fn in [
+    "thread_queue_init", "thread_queue_acquire_spinlock_if_not_empty", "thread_queue_is_empty", "thread_queue_get_size",
+    "thread_queue_push_head", "thread_queue_push_tail", "thread_queue_pop_head", "thread_queue_pop_tail", "thread_queue_remove",
+    "ABTD_spinlock_acquire", "ABTD_spinlock_try_acquire", "ABTD_spinlock_release", "ABTD_spinlock_is_locked", "ABTD_spinlock_clear"]] + [
+    ("pool/pool.c", fn) for fn in ["ABTI_pool_push", "ABTI_pool_pop", "ABTI_pool_pop_wait", "ABTI_pool_pop_many", "ABTI_pool_push_many",
+                                   "ABTI_pool_remove", "ABTI_pool_pop_timedwait", "pool_pop_thread_ex", "pool_pop_threads_ex",
+                                   "pool_push_thread_ex", "pool_push_threads_ex", "pool_pop_wait_thread_ex", "ABT_pool_pop_timedwait",
+                                   "ABT_pool_remove", "ABT_pool_create_basic", "ABTI_pool_create_basic"]]
+
+CKINDS = ["fifo", "fifo_wait", "randws"]
+CACCESS = ["mpmc", "spsc", "mpsc", "spmc", "priv"]
+_FILE_KIND = {"pool/fifo.c": 0, "pool/fifo_wait.c": 1, "pool/randws.c": 2}
+_TABLE_KIND = {"fifo": 0, "fifoWait": 1, "randws": 2}
+_TABLE_ACC = {"mpmc": 0, "spsc": 1, "mpsc": 2, "spmc": 3, "priv": 4}
+
+
+def implicated(broken, gen_info):
+    """(kind, access) combinations a broken obligation points at: T1 skeletons name a source file, the generated table
+    names the entries whose queue calls are not inside the lock.  Used only to weight the failing-input search."""
+    hot = set()
+    for b in broken:
+        if b.get("kind") == "T1-skeleton" and b.get("file") in _FILE_KIND and not b.get("fn", "").startswith("thread_queue_"):
+            k = _FILE_KIND[b["file"]]
+            hot.update((k, a) for a in range(5))
+    sharp = {(_TABLE_KIND.get(e[0], 0), _TABLE_ACC.get(e[1], 0)) for e in (gen_info or {}).get("unlocked_shared", [])}
+    return sorted(hot - sharp) + sorted(sharp) * 6
+
+
+def conc_params(rng, hot=None, search=False):
+    if hot and rng.below(100) < 75:
+        kind, acc = rng.choice(hot)
+    else:
+        kind, acc = rng.below(3), rng.choice([0, 0, 1, 1, 2, 3, 3, 4])
+    nprod = 1 + rng.below(3)
+    ncons = 1 + rng.below(3)
+    nunits = 3 + rng.below(8)
+    rounds = 4 + rng.below(7)
+    if search and rng.chance(1, 2):
+        # few units, many rounds: the pool oscillates around empty, where the lock-free paths and the lock interact
+        nunits, rounds = 2 + rng.below(3), 8 + rng.below(8)
+    ext = rng.choice([100, 100, 60, 30, 0])
+    return [kind, acc, nprod, ncons, nunits, rounds, ext]
+
+
+def run_poolconc(lines, timeout=120):
+    import subprocess
+    from vlib import t3
+    p = subprocess.run([DRIVER or C.driver_exe(), "poolconc"], input=("\n".join(lines) + "\nend\n").encode(), stdout=subprocess.PIPE,
+                       stderr=subprocess.PIPE, timeout=timeout)
+    out = p.stdout.decode("utf-8", "replace").strip().split("\n")
+    rej = [l for l in out if l.startswith("REJECT")]
+    end = [l for l in out if l.startswith("END")]
+    trans = []
+    if end:
+        m = re.search(r"\[(.*)\]", end[0])
+        if m:
+            trans = [x.strip() for x in m.group(1).split(",") if x.strip()]
+    return (rej[0] if rej else None), trans, p.returncode
+
+
+def one_schedule(exe, job, do_validate, logdir):
+    """run one (program, schedule); -> dict with rc, and (when the run completed) projection / validation / oracle results"""
+    idx, params, sseed, mode = job
+    log = os.path.join(logdir, "C07c-%d-%d.log" % (os.getpid(), idx))
+    rc, err, _ = vs.run(exe, sseed, mode, params, log=log, timeout=180)
+    r = {"idx": idx, "params": params, "seed": sseed, "mode": mode, "rc": rc, "stderr": err[-600:]}
+    try:
+        if rc == 0:
+            lg = t3_pool.PLog(log)
+            r["stats"] = lg.stats
+            r["oracle"] = t3_pool.history_oracle(lg)
+            lines, info = t3_pool.project(lg)
+            r["info"] = dict(info)
+            r["nlines"] = len(lines)
+            if idx < 2:
+                r["head"] = lines[:16]
+            if do_validate:
+                rej, trans, drc = run_poolconc(lines)
+                r["trans"] = trans
+                if rej or drc != 0:
+                    k = int(rej.split()[1]) if rej else 0
+                    r["reject"] = {"model": "Model.PoolConc", "object": "PW0", "reject": rej or "driver rc=%d" % drc,
+                                   "projected_context": lines[max(0, k - 14): k + 3]}
+        elif rc == 1:
+            lg = t3_pool.PLog(log)
+            r["monitor"] = lg.fails[:3]
+    finally:
+        try:
+            os.remove(log)
+        except OSError:
+            pass
+    return r
+
+
+def t3_conc(res, tier, broken):
+    from concurrent.futures import ThreadPoolExecutor
+    exe = vs.build("sc_pool", ["sc_pool.c"])
+    logdir = os.path.join(C.BUILD, "logs")
+    os.makedirs(logdir, exist_ok=True)
+    rng = C.Rng(res.seed * 104729 + 707)
+    sizes = {"quick": (160, 5), "thorough": (1500, 8), "search": (500, 6) if tier == "quick" else (3000, 6)}
+    workers = max(2, min(16, (os.cpu_count() or 4)))
+    hot = implicated(broken, res.cov.get("generated", {}).get("poolends"))
+    outcomes = collections.Counter()
+    cov = collections.Counter()
+    ops = collections.Counter()
+    per_cfg = collections.Counter()
+    transitions = set()
+    nruns = [0]
+
+    def jobs(nprog, nsched, hot, search):
+        out = []
+        for p in range(nprog):
+            params = conc_params(rng, hot, search)
+            pseed = 1 + rng.below(10**6)
+            for k in range(nsched):
+                out.append((len(out), params, pseed * 1000 + k, vs.MODES[(p + k) % len(vs.MODES)]))
+        return out
+
+    def sweep(nprog, nsched, do_validate, hot=None):
+        """-> None | ("concrete", what, replay) | ("reject", what, replay)"""
+        js = jobs(nprog, nsched, hot, not do_validate)
+        first = None
+        with ThreadPoolExecutor(max_workers=workers) as ex:
+            futs = [ex.submit(one_schedule, exe, j, do_validate, logdir) for j in js]
+            for fu in futs:
+                if first is not None and first[0] == "concrete":
+                    fu.cancel()     # results are consumed in job order: the first failure in that order is reported
+                    continue
+                r = fu.result()
+                nruns[0] += 1
+                outcomes[r["rc"]] += 1
+                rep = {"scenario": "sc_pool", "params": r["params"], "seed": r["seed"], "mode": r["mode"],
+                       "kind": CKINDS[r["params"][0]], "access": CACCESS[r["params"][1]],
+                       "cmd": "%s %d %s <log> %s" % (exe, r["seed"], r["mode"], " ".join(map(str, r["params"])))}
+                if r["rc"] != 0:
+                    last = r["stderr"].strip().split("\n")[-1] if r["stderr"].strip() else ""
+                    rep["stderr"] = r["stderr"]
+                    if r.get("monitor"):
+                        rep["monitor"] = r["monitor"]
+                    what = "%s pool, access %s, under concurrent producers/consumers: %s: %s" % (
+                        rep["kind"], rep["access"].upper(), vs.RC_TEXT.get(r["rc"], "scenario crashed rc=%d" % r["rc"]), last)
+                    first = ("concrete", what, rep)
+                    continue
+                per_cfg["%s/%s" % (rep["kind"], rep["access"])] += 1
+                info = r.get("info", {})
+                for k, v in info.get("ops", {}).items():
+                    ops[k] += v
+                for k in ("calls_started_while_another_in_progress", "preempted_after_precheck", "tas_failed", "empty_seen_lock_free"):
+                    cov[k] += info.get(k, 0)
+                if info.get("calls_started_while_another_in_progress", 0) > 0:
+                    cov["traces_with_overlapping_calls"] += 1
+                for k, v in r.get("stats", {}).items():
+                    cov["scenario_" + k] += v
+                cov["projected_events"] += r.get("nlines", 0)
+                transitions.update(r.get("trans", []))
+                if "head" in r:
+                    res.sample({"sc_pool_params": r["params"], "seed": r["seed"], "mode": r["mode"], "projected_head": r["head"]})
+                if r.get("oracle"):
+                    rep["oracle"] = r["oracle"]
+                    first = ("concrete", "%s pool, access %s: the recorded call/return history is not a history of one atomic queue: %s" % (
+                        rep["kind"], rep["access"].upper(), r["oracle"]), rep)
+                    continue
+                if do_validate:
+                    cov["traces_validated"] += 1
+                    if "reject" in r and first is None:
+                        rep["rejects"] = [r["reject"]]
+                        first = ("reject", r["reject"]["reject"], rep)
+        return first
+
+    r = None
+    searched = False
+    if broken:
+        searched = True
+        r = sweep(*sizes["search"], False, hot)
+    else:
+        r = sweep(*sizes[tier], True)
+        if r and r[0] == "reject":
+            broken.append({"kind": "T3-correspondence", "what": r[1], "replay": r[2]})
+            searched = True
+            hot = [( r[2]["params"][0], r[2]["params"][1])]
+            r = sweep(*sizes["search"], False, hot) or None
+    if r and r[0] == "concrete":
+        res.violation("C07 violated: " + r[1], r[2])
+    res.add_cov(conc_programs_and_schedules=sizes["search" if searched else tier], conc_runs=nruns[0], conc_workers=workers,
+                conc_outcomes={str(k): v for k, v in outcomes.items()}, conc_runs_per_kind_access=dict(sorted(per_cfg.items())),
+                conc_ops=dict(ops), conc_counters=dict(cov), conc_model_transitions_exercised=len(transitions),
+                conc_model_transitions=sorted(transitions), conc_search_focus=[[CKINDS[k], CACCESS[a]] for k, a in hot] if searched else [])
+
+
+def conc(res, tier, broken):
+    n, tb = t1.check(T1_FUNCS)
+    res.add_cov(t1_functions=n, t1_broken=len(tb))
+    for b in tb:
+        broken.append({"kind": "T1-skeleton", **b})
+    gen = res.cov.get("generated", {}).get("poolends") or {}
+    if gen.get("unlocked_shared"):
+        broken.append({"kind": "T0-lock-discipline", "what": "queue call outside the pool lock in a callback installed for a shared access mode",
+                       "entries": gen["unlocked_shared"][:12]})
+    t3_conc(res, tier, broken)
+
+
 DRIVER = None
 
 
@@ -753,13 +989,39 @@ def run(res, tier, broken):
     try:
         n1 = t2_tq(res, tier, broken)
         n2 = t2_pool(res, tier, broken)
+        conc(res, tier, broken)
     finally:
         drop_private_driver()
     res.add_cov(programs=res.cov.get("tq_programs", 0) + res.cov.get("pool_programs", 0), disagreements_checked=n1 + n2)
 
 
+def replay_conc(rep):
+    private_driver()
+    import atexit
+    atexit.register(drop_private_driver)
+    exe = vs.build("sc_pool", ["sc_pool.c"])
+    log = os.path.join(C.BUILD, "logs", "replay-C07-%d.log" % os.getpid())
+    os.makedirs(os.path.dirname(log), exist_ok=True)
+    rc, err, _ = vs.run(exe, rep["seed"], rep["mode"], rep["params"], log=log, timeout=180)
+    print("scenario rc=%d (%s) %s log=%s" % (rc, vs.RC_TEXT.get(rc, "ok" if rc == 0 else "crash"), err.strip()[-400:], log))
+    if rc != 0:
+        return 1
+    lg = t3_pool.PLog(log)
+    why = t3_pool.history_oracle(lg)
+    print("history oracle:", why)
+    lines, _ = t3_pool.project(lg)
+    rej, _, drc = run_poolconc(lines)
+    if rej or drc:
+        k = int(rej.split()[1]) if rej else 0
+        print("model rejects:", rej or "driver rc=%d" % drc)
+        print("\n".join(lines[max(0, k - 14): k + 3]))
+    return 1 if (why or rej or drc) else 0
+
+
 def replay(res, path):
     rep = json.load(open(path))
+    if rep.get("scenario") == "sc_pool":
+        return replay_conc(rep)
     if "ops" not in rep:
         print("replay file names a broken obligation without a failing input:", rep.get("broken"))
         return 1
